@@ -31,6 +31,10 @@ What the translation relies on (trusted base of the source tie, together with Sp
     of 64-bit cells laid out as the C struct (field offsets computed from the struct definition: every field is an
     8-byte scalar or an array of them); pointer arithmetic / indices are computed in uint64 (a valid C object cannot
     make them wrap); `uint32_t` views of a 64-bit cell are little endian.
+  * (reim pointwise products: reim/reim_fftvec_addmul_ref.c, a file compiled WITHOUT -mfma) the precomputation object
+    (`struct reim_mul_precomp` / `reim_addmul_precomp`) is a struct parameter whose function-pointer field occupies one
+    cell that has no name in the IR (any read of it is rejected) and whose `int64_t m` is cell 1; double `*`, `+`, `-`
+    are the separately rounded binary64 operations on bit patterns; `r[i] += x` is load, add, store.
   * (FFT64 module layer: vec_znx_dft.c, scalar_vector_product.c, znx_small.c, vector_matrix_product.c -- ADDRESSING only)
     - a `const MODULE*` parameter is the scalar `module->nn`, plus a second scalar `module->m` in the functions that
       read it or pass the module to one that does (no invariant between the two is assumed);
@@ -1637,8 +1641,38 @@ def load_ast(fn):
 REGISTRY = {}   # name -> FnTranslator of an already translated function (None: translation failed)
 
 
+def sync_fp_flags():
+    """Floating-point contraction depends on the per-file ISA flags of the real build, so they are READ from
+    spqlios/CMakeLists.txt on every run (tools/build_repo.parse_cmake) instead of being trusted from EXTRA_CFLAGS:
+    a translated file that the build compiles with -mfma / AVX-512 gets `-mfma` here (the rule `check_fma` then rejects
+    every double product feeding an addition in it), and project-wide options that license contraction or value-changing
+    optimisations anywhere (-march=, -mfma, -ffast-math, -Ofast, -ffp-contract=fast, -funsafe-math-optimizations in a
+    CMakeLists.txt outside the per-file properties) are applied to every translated file."""
+    sys.path.insert(0, os.path.join(VERIF, "tools"))
+    from build_repo import parse_cmake
+    per_file = {"spqlios/" + f: fl for f, fl in parse_cmake(REPO)}
+    glob = False
+    for cm in ("CMakeLists.txt", "spqlios/CMakeLists.txt"):
+        path = os.path.join(REPO, cm)
+        if not os.path.exists(path):
+            continue
+        txt = re.sub(r"#[^\n]*", "", open(path).read())
+        txt = re.sub(r"set_source_files_properties\([^)]*\)", "", txt)
+        if re.search(r"-march=|-mfma|-mavx512|-ffast-math|-Ofast|-ffp-contract=fast|-funsafe-math", txt):
+            glob = True
+    for src in SRCS:
+        fl = per_file.get(src)
+        if fl is None:
+            raise Unsupported(f"{src} is not in the source lists of spqlios/CMakeLists.txt")
+        if glob or any(x == "-mfma" or x.startswith("-mavx512") for x in fl):
+            cur = EXTRA_CFLAGS.setdefault(src, [])
+            if "-mfma" not in cur:
+                cur.append("-mfma")
+
+
 def translate_all(targets):
     REGISTRY.clear()
+    sync_fp_flags()
     out = ["/- GENERATED by tools/c2lean.py from " + ", ".join(SRCS) + " (clang JSON AST) -- do not edit, never committed.",
            "   One `Spq.CIR.Fn` per C function; slots = scalar parameters, then locals in order of declaration. -/",
            "import Spq.CIR", "namespace Gen.CSrc", "open Spq.CIR", ""]
